@@ -6,6 +6,7 @@ import (
 	"fmt"
 	"math/big"
 	"math/bits"
+	"sort"
 	"strconv"
 	"strings"
 )
@@ -590,7 +591,11 @@ func (c *Ctx) Extract(t *Term, hi, lo int) *Term {
 		case OpBvOr:
 			return c.BvOr(as[0], as[1])
 		default:
-			return c.BvXor(as[0], as[1])
+			r := as[0]
+			for _, x := range as[1:] {
+				r = c.BvXor(r, x)
+			}
+			return r
 		}
 	case OpBvNot:
 		return c.BvNot(c.Extract(t.Args[0], hi, lo))
@@ -917,50 +922,7 @@ func (c *Ctx) bitwise(op Op, a, b *Term) *Term {
 			return a
 		}
 	case OpBvXor:
-		if a.IsConst() && b.IsConst() {
-			if a.W <= 64 {
-				return c.Const(a.W, a.Val^b.Val)
-			}
-			return c.bigBin(a, b, func(x, y *big.Int) *big.Int { return new(big.Int).Xor(x, y) })
-		}
-		if isZero(a) {
-			return b
-		}
-		if isZero(b) {
-			return a
-		}
-		if a == b {
-			return c.Const(a.W, 0)
-		}
-		if isAllOnes(a) {
-			return c.BvNot(b)
-		}
-		if isAllOnes(b) {
-			return c.BvNot(a)
-		}
-		// (x ^ y) ^ y = x
-		if a.Op == OpBvXor {
-			if a.Args[0] == b {
-				return a.Args[1]
-			}
-			if a.Args[1] == b {
-				return a.Args[0]
-			}
-			if b.IsConst() && a.Args[1].IsConst() {
-				return c.BvXor(a.Args[0], c.BvXor(a.Args[1], b))
-			}
-		}
-		if b.Op == OpBvXor {
-			if b.Args[0] == a {
-				return b.Args[1]
-			}
-			if b.Args[1] == a {
-				return b.Args[0]
-			}
-			if a.IsConst() && b.Args[1].IsConst() {
-				return c.BvXor(b.Args[0], c.BvXor(b.Args[1], a))
-			}
-		}
+		return c.xorN(a, b)
 	}
 	if a.IsConst() {
 		a, b = b, a
@@ -969,6 +931,61 @@ func (c *Ctx) bitwise(op Op, a, b *Term) *Term {
 		a, b = b, a
 	}
 	return c.bin(op, a, b)
+}
+
+// xorN builds the AC-normal form of a xor b: flattened, duplicates cancelled, constants folded, sorted by id.
+func (c *Ctx) xorN(a, b *Term) *Term {
+	var items []*Term
+	add := func(t *Term) {
+		if t.Op == OpBvXor {
+			items = append(items, t.Args...)
+		} else {
+			items = append(items, t)
+		}
+	}
+	add(a)
+	add(b)
+	w := a.W
+	var kc *Term
+	cnt := map[int]int{}
+	for _, t := range items {
+		if t.IsConst() {
+			if kc == nil {
+				kc = t
+			} else if w <= 64 {
+				kc = c.Const(w, kc.Val^t.Val)
+			} else {
+				kc = c.BigConst(w, new(big.Int).Xor(constBig(kc), constBig(t)))
+			}
+			continue
+		}
+		cnt[t.ID]++
+	}
+	var out []*Term
+	seen := map[int]bool{}
+	for _, t := range items {
+		if t.IsConst() || seen[t.ID] {
+			continue
+		}
+		seen[t.ID] = true
+		if cnt[t.ID]%2 == 1 {
+			out = append(out, t)
+		}
+	}
+	sort.Slice(out, func(i, j int) bool { return out[i].ID < out[j].ID })
+	if kc != nil && !isZero(kc) {
+		if isAllOnes(kc) && len(out) == 1 {
+			return c.BvNot(out[0])
+		}
+		out = append(out, kc)
+	}
+	if len(out) == 0 {
+		return c.Const(w, 0)
+	}
+	if len(out) == 1 {
+		return out[0]
+	}
+	return c.mk(&Term{Op: OpBvXor, W: w, Args: out})
 }
 
 // maskSegments rewrites x & k into concat of extracts/zeros when k consists of byte-ish runs.
